@@ -1,4 +1,5 @@
 import QuillModel.Backend.CtxDrain
+import QuillModel.Backend.ThreadProofs
 /-!
 # C20 — exited threads' queues are drained, then reclaimed
 
@@ -137,6 +138,24 @@ theorem C20_idle_poll_retains_live (s0 : BSt) (h0 : CtxFresh s0) (ops : List Op)
   have := hperm.length_eq
   simp only [liveContexts, List.length_map] at this
   exact this
+
+/-- **Reclaimed only after delivery**: in every reachable state a context that is no longer registered (it was
+    reclaimed) has an empty transit buffer and an empty queue, and every statement ever committed to its queue has
+    been popped and processed — nothing is lost with the context (`0 < hdr`: records have a positive size). -/
+theorem C20_reclaimed_delivered (s0 : BSt) (h0 : CtxFresh s0) (hh : 0 < s0.cfg.hdr) (ops : List Op) :
+    ∀ i, i < (runOps s0 ops).ths.length → i ∉ (runOps s0 ops).registry →
+      ((runOps s0 ops).th i).buf = [] ∧ ((runOps s0 ops).th i).qStmts = [] ∧
+      ((runOps s0 ops).th i).accepted = ((runOps s0 ops).th i).popped := by
+  intro i hi hr
+  have h0' : TCInv s0 := by
+    refine ⟨h0.inv, hh, ?_, ?_, ?_⟩
+    · intro j hj; rw [h0.1] at hj; cases hj
+    · intro j hj; rw [h0.1] at hj; cases hj
+    · intro x hx; rw [h0.2.2.2.2.2] at hx; cases hx
+  have h := TCInv_runOps s0 h0' ops
+  obtain ⟨h1, h2⟩ := h.2.unreg i hi hr
+  refine ⟨h1, h2, ?_⟩
+  rw [(h.2.ths i hi).cons, h1, h2]; simp
 
 /-! ### a counter that is too narrow: finding F13 in miniature -/
 
